@@ -134,7 +134,13 @@ struct Hist {
   std::string fresh_key(const JVal& obj) {
     if (dup_mode && !obj.o.empty() && r.below(4) == 0) return obj.o[r.below(obj.o.size())].first;
     std::string k = "fk" + std::to_string(key_serial_ref()++);
-    if (r.below(6) == 0) k += std::string(r.range(28, 70), 'x');  // long keys: vector compare paths
+    if (r.below(6) == 0) {  // long keys: vector compare paths; half of them with arbitrary (also >= 0x80) bytes
+      size_t n = r.range(28, 70);
+      if (r.coin()) k += std::string(n, 'x');
+      else for (size_t i = 0; i < n; i++) k += (char)r.range(1, 255);
+    } else if (r.below(12) == 0) {
+      k = std::string(r.range(30, 40), (char)r.range(0x7e, 0x81)) + k;  // shared long prefix around the sign boundary, distinct tail
+    }
     if (r.below(10) == 0) k = std::string(1, (char)r.range(0x21, 0x7e)) + k;
     return k;
   }
